@@ -63,8 +63,10 @@ Rec(T, i) == T.ents[i].rec
 
 \* what each operation must deliver to the callback (entry ids, in order)
 BaseReference(T, o) ==
-    LET all == IF o.op = "none" THEN <<>> ELSE InOrder(T, o.root)
-    IN  CASE o.op = "none" -> <<>>        \* schema inspection only (Tables, Indexes, Columns, Schema)
+    LET all == IF o.op \in {"none", "list"} THEN <<>> ELSE InOrder(T, o.root)
+    IN  CASE o.op = "none" -> <<>>        \* schema inspection only (Columns, Schema)
+          \* Tables() / Indexes(): the sqlite_master rows of that type, in sqlite_master order
+          [] o.op = "list" -> SelectSeq(InOrder(T, 1), LAMBDA i : T.ents[i].mtype = o.mtype)
           [] o.op \in {"table_scan", "index_scan"} -> all
           [] o.op \in {"rowid", "pk_rowid"} -> SelectSeq(all, LAMBDA i : NumCmp(T.ents[i].rowid, o.rowid) = 0)
           [] o.op = "scan_min" ->
@@ -320,7 +322,7 @@ Run(T, o, cache0) ==
 
         Ctx(mode) == [key |-> o.key, to |-> o.to, mode |-> mode]
         Body(S) ==
-            CASE o.op = "none" -> S
+            CASE o.op \in {"none", "list"} -> S
               [] o.op = "table_scan" -> TIter(S, o.root, MaxRecursion)
               [] o.op = "rowid" -> Lookup(S, o.root, o.rowid)
               [] o.op = "pk_rowid" ->        \* PKSelect on an INTEGER PRIMARY KEY table: callback iff found
